@@ -8,21 +8,24 @@ THEOREMS = ["Rink.Sandbox.serve_good", "Rink.Sandbox.sandbox_refines", "Rink.San
             "Rink.Sandbox.unfixed_sandbox_wedges"]
 SVC = os.path.join(vlib.HARNESS, "target", "release", "sbx_service")
 KINDS = ["add", "panic", "sleep", "oom", "exit", "big", "huge"]
+# a reply that is still being received when the time limit ends: the child's output is slowed down for these
+# sequences only (a slowed child that panics or exits loses its last words, which would not be Rink's doing)
+BLOB_SEQS = [["add", "blob", "add", "add"], ["blob", "add"], ["blob", "blob", "add"], ["add", "big", "blob", "add", "sleep", "add"], ["blob", "sleep", "add"]]
 TIMEOUT_MS = 400
 LIMIT = 64 << 20
 
 def concretise(kinds):
-    return ["%s:%d" % (k, i + 1) if k in ("add", "sleep", "big", "huge") else k for i, k in enumerate(kinds)]
+    return ["%s:%d" % (k, i + 1) if k in ("add", "sleep", "big", "huge", "blob") else k for i, k in enumerate(kinds)]
 
 def own(op):
     k = op.split(":")[0]
-    return {"add": "ok:" + op.split(":")[-1], "big": "ok:" + op.split(":")[-1], "sleep": "timeout", "panic": "panic", "oom": "crashed", "exit": "crashed", "huge": "crashed"}[k]
+    return {"add": "ok:" + op.split(":")[-1], "big": "ok:" + op.split(":")[-1], "sleep": "timeout", "panic": "panic", "oom": "crashed", "exit": "crashed", "huge": "crashed", "blob": "timeout"}[k]
 
 def run_seq(args):
     ops, gap = args
     try:
         p = subprocess.run([SVC, "run", str(TIMEOUT_MS), str(LIMIT), str(gap)] + ops, stdout=subprocess.PIPE, stderr=subprocess.DEVNULL,
-                           timeout=60 + len(ops) * 8, env=dict(os.environ, RUST_BACKTRACE="0"))
+                           timeout=60 + len(ops) * 8, env=dict(os.environ, RUST_BACKTRACE="0", **({"SBX_SLOW_STDOUT": "16384"} if any(o.startswith("blob") for o in ops) else {})))
         out = p.stdout.decode().strip().split("\n")
     except subprocess.TimeoutExpired:
         out = ["hang"]
@@ -56,6 +59,7 @@ def run(c):
     # pause against the next request)
     jobs = [(concretise(s), rnd.choice([0, 0, 5, 30, 0, 5, 30, TIMEOUT_MS * 5 // 4, TIMEOUT_MS * 2])) for s in seqs]
     jobs += [(concretise(s), g) for s in (["add", "add", "add"], ["add", "sleep", "add", "add"], ["add", "panic", "add"]) for g in (TIMEOUT_MS * 3 // 4, TIMEOUT_MS * 5 // 4, TIMEOUT_MS * 2)]
+    jobs += [(concretise(s), g) for s in BLOB_SEQS for g in (0, 30)]
     with ThreadPoolExecutor(max_workers=16) as ex:
         results = list(ex.map(run_seq, jobs))
     # a reply that differs from the request's own outcome is re-checked with the machine to itself: the
@@ -74,7 +78,8 @@ def run(c):
     c.coverage["sequences_rerun_alone"] = retried
     # model
     req_path = os.path.join(c.work, "req.txt")
-    open(req_path, "w").write("\n".join(" ".join(ops) for ops, _, _, _ in results) + "\n")
+    # (for the model a reply that arrives too late is an overrun like any other: `blob` is `sleep`)
+    open(req_path, "w").write("\n".join(" ".join(o.replace("blob:", "sleep:") for o in ops) for ops, _, _, _ in results) + "\n")
     if not c.run_model("sandbox"):
         return
     model = open(os.path.join(c.work, "model.txt")).read().split("\n")
@@ -96,7 +101,7 @@ def run(c):
     c.coverage.update({
         "evaluations": len(results), "distinct_nontrivial": len(set(" ".join(o) for o, _, _, _ in results)),
         "traces_validated_against_impl": len(results), "requests": nreq,
-        "rule": "every sequence of length <= %d over {normal, panic, overrun of the time limit, allocation beyond the memory limit, child exit, 1 MiB payload, a request larger than the memory limit} (exhaustive: each fault in every position), %d random sequences of length 5, gaps of 0/5/30 ms and of 0.75x / 1.25x / 2x the time limit between requests, each on a fresh parent process driving the real Sandbox; replies compared with the request's own outcome and with the Lean model" % (maxlen, extra),
+        "rule": "every sequence of length <= %d over {normal, panic, overrun of the time limit, allocation beyond the memory limit, child exit, 1 MiB payload, a request larger than the memory limit}, plus sequences in which a 6 MiB reply is still being received when the time limit ends (child output slowed to 16 MB/s) (exhaustive: each fault in every position), %d random sequences of length 5, gaps of 0/5/30 ms and of 0.75x / 1.25x / 2x the time limit between requests, each on a fresh parent process driving the real Sandbox; replies compared with the request's own outcome and with the Lean model" % (maxlen, extra),
         "samples": [" ".join(o) for o, _, _, _ in results[5:11]], "exhaustive": True,
     })
 
